@@ -207,7 +207,14 @@ def rule_R7_tree(ctx, prj) -> bool:
     af = prj.func(f"{CB}.add_file")
     try:
         t, f, p, files = TE.build(prj)
-    except (Unknown, PyRaise) as e:
+    except PyRaise as e:
+        node = getattr(e, "node", None)
+        site = getattr(node, "_site", None) or (f"{ag.module.rel}:{node.lineno}" if node is not None and hasattr(node, "lineno") else ag.site())
+        ctx.viol("R7", f"codebase/raises-{e.name}", site,
+                 f"building and aggregating a codebase from the paths {[x[0] for x in TE.FILES]} raises {e.name}: the tree's keys (paths as given) and the "
+                 f"names under which folders and files are listed no longer agree for one of them, so no report is produced")
+        return True
+    except Unknown as e:
         ctx.info(f"codebase not evaluable ({type(e).__name__}: {e}); structural rules R4/R5 decide")
         ctx.rule("R7", "codebase construction not evaluable by the interpreter: structural rules decide", floor=0)
         return False
